@@ -91,6 +91,12 @@ class LinearOperator(CalculusFunction):
 # ...
 
 # ...
+def _is_matrix_vector(u, v):
+    """True if u is a (square) matrix and v a column vector of matching size"""
+    _mat = (Matrix, ImmutableDenseMatrix)
+    return (isinstance(u, _mat) and isinstance(v, _mat) and
+            u.shape[1] > 1 and v.shape == (u.shape[1], 1))
+
 class DotBasic(CalculusFunction):
 
     nargs = None
@@ -141,6 +147,13 @@ class Dot_2d(DotBasic):
         u = _args[0]
         v = _args[1]
 
+        # matrix . vector, e.g. dot(grad(F), G); the generic Dot is symmetric and may
+        # have swapped its arguments, so (vector, matrix) means the same product
+        if _is_matrix_vector(u, v):
+            return ImmutableDenseMatrix(u*v)
+        if _is_matrix_vector(v, u):
+            return ImmutableDenseMatrix(v*u)
+
 
         if isinstance(u, (Add, Mul)):
             ls = u.atoms(Tuple)
@@ -173,14 +186,12 @@ class Dot_3d(DotBasic):
         u = _args[0]
         v = _args[1]
 
-        if isinstance(u, (Matrix, ImmutableDenseMatrix)):
-            if isinstance(v, (Matrix, ImmutableDenseMatrix)):
-                return u[0]*v[0] + u[1]*v[1] + u[2]*v[2]
-
-            else:
-                return Tuple(u[0,0]*v[0] + u[0,1]*v[1] + u[0,2]*v[2],
-                             u[1,0]*v[0] + u[1,1]*v[1] + u[1,2]*v[2],
-                             u[2,0]*v[0] + u[2,1]*v[1] + u[2,2]*v[2])
+        # matrix . vector, e.g. dot(grad(F), G); the generic Dot is symmetric and may
+        # have swapped its arguments, so (vector, matrix) means the same product
+        if _is_matrix_vector(u, v):
+            return ImmutableDenseMatrix(u*v)
+        if _is_matrix_vector(v, u):
+            return ImmutableDenseMatrix(v*u)
 
 
         if isinstance(u, (Add, Mul)):
@@ -249,9 +260,9 @@ class Cross_3d(CrossBasic):
         u = _args[0]
         v = _args[1]
 
-        return Tuple(u[1]*v[2] - u[2]*v[1],
-                     u[2]*v[0] - u[0]*v[2],
-                     u[0]*v[1] - u[1]*v[0])
+        return ImmutableDenseMatrix([[u[1]*v[2] - u[2]*v[1]],
+                                     [u[2]*v[0] - u[0]*v[2]],
+                                     [u[0]*v[1] - u[1]*v[0]]])
 # ...
 
 
@@ -273,6 +284,23 @@ class InnerBasic(CalculusFunction):
             return Basic.__new__(cls, *args, **options)
         else:
             return r
+
+class Inner_1d(InnerBasic):
+
+    @classmethod
+    def eval(cls, *_args):
+        """."""
+
+        if not _args:
+            return
+
+        if not( len(_args) == 2):
+            raise ValueError('Expecting two arguments')
+
+        u = _args[0]
+        v = _args[1]
+
+        return u[0] * v[0]
 
 class Inner_2d(InnerBasic):
 
